@@ -3,7 +3,7 @@
 CHECK = {
     "pkg": ".", "files": ["root/c36_test.go", "root/c38_test.go"], "run": "^TestC36",
     "quick": {"scale": 1, "shards": 1, "timeout": 600},
-    "thorough": {"scale": 8, "shards": 8, "timeout": 1500},
+    "thorough": {"scale": 60, "shards": 8, "timeout": 1800},
     "rule": "per case a LightHouse (lighthouse, or client with one configured lighthouse) is built from a generated config: "
             "1-3 own overlay networks, valid remote_allow_list and remote_allow_ranges with nested lists, static hosts whose "
             "addresses are partly unusable, calculated remotes; then 1..25 steps: lighthouse answers / host updates / punch "
